@@ -656,7 +656,7 @@ def do_case(case, j, seed, path, tmp, facts, stats, prop="C08"):
             "concrete": {"fqdn": conc.fqdn, "lines": alltext.split("\n")[:8]}}
 
 
-def do_run_case(case, seed, tmp, stats):
+def do_run_case(case, seed, tmp, stats, repeat=True):
     """C10: the case is cleaned several times in this process - every time with a FRESH cleaner, the same
     configuration and the caller's objects (the allow list of a filterable spec) reused - with the application
     order logged.  The parent puts the repetitions of all child interpreters (one per PYTHONHASHSEED) into one trace."""
@@ -668,7 +668,7 @@ def do_run_case(case, seed, tmp, stats):
     allow_objs = dict(((p, si), {AKEY: sp["sp"]["allow"]}) for p in paths for si, sp in enumerate(case["content"])
                       if sp["sp"].get("allow"))
     reps = []
-    for ri in range(3 if filtered else 2):
+    for ri in range((3 if filtered else 2) if repeat else 1):
         res = {"specs": []}
         for path in paths:
             cleaner = make_cleaner(cf, conc, tmp)
@@ -729,7 +729,7 @@ def main():
     else:
         runs = {}
         for case in inp["cases"]:
-            runs[case["id"]] = do_run_case(case, inp["seed"], tmp, stats)
+            runs[case["id"]] = do_run_case(case, inp["seed"], tmp, stats, inp.get("repeat", True))
         out = {"runs": runs, "hashseed": os.environ.get("PYTHONHASHSEED"), "stats": stats}
     with open(sys.argv[2], "w") as f:
         json.dump(out, f, separators=(",", ":"))
